@@ -483,3 +483,285 @@ def run_decisions(pm, ctx, rule, patterns, title=None, min_funcs=1):
     ctx.extra['%s_functions' % rule] = n_funcs
     ctx.extra['%s_tests' % rule] = n_tests
     ctx.floor(rule, n_funcs, min_funcs, 'functions with tests matched with the reference')
+
+
+# ---------------------------------------------------------------------------
+# call-condition drift: under which condition a function calls the repository's
+# own functions (and the library functions it imports), compared with the
+# reference by a truth table over the atoms.
+
+_BUILTIN_METHODS = set()
+for _t in (dict, list, set, str, bytes, tuple, frozenset):
+    _BUILTIN_METHODS.update(x for x in dir(_t) if not x.startswith('__'))
+
+
+def _repo_names(pm):
+    cache = getattr(pm, '_conddrift_names', None)
+    if cache is None:
+        funcs, methods = set(), set()
+        for f in pm.functions.values():
+            nm = f.qualname.rsplit('.', 1)[-1].split('#')[0]
+            if f.cls is not None:
+                methods.add(nm)
+            else:
+                funcs.add(nm)
+        classes = {c.qualname.rsplit('.', 1)[-1] for c in pm.classes.values()}
+        cache = pm._conddrift_names = (funcs, methods, classes)
+    return cache
+
+
+def _tracked_call(pm, f, n):
+    """The call is to a function/method/class the repository defines, or to a
+    function of a module the file imports (os.path.relpath, textwrap.fill)."""
+    funcs, methods, classes = _repo_names(pm)
+    fn = n.func
+    if isinstance(fn, ast.Name):
+        return fn.id in funcs or fn.id in classes
+    if isinstance(fn, ast.Attribute):
+        root = fn.value
+        while isinstance(root, ast.Attribute):
+            root = root.value
+        if isinstance(root, ast.Name):
+            imp = f.module.imports.get(root.id)
+            if imp is not None and imp[0] == 'module' and not root.id.startswith('_'):
+                # module function, e.g. os.path.relpath; typing helpers excluded
+                return root.id not in ('typing', 'six', 'logging')
+        if fn.attr in _BUILTIN_METHODS:
+            return isinstance(fn.value, ast.Name) and fn.value.id in ('self', 'cls') and \
+                fn.attr in methods
+        return fn.attr in methods or fn.attr in funcs
+    return False
+
+
+def _clean(text):
+    try:
+        return unparse(ast.parse(text, mode='eval').body)
+    except SyntaxError:
+        return text
+
+
+def _memo_containers(f):
+    """Texts of containers the function both stores into and tests/looks up:
+    registries and memo tables.  A test on one of them is decided by the
+    memo-key rule, not by the call-condition rule."""
+    stored, tested = set(), set()
+    for n in own_nodes(f.node):
+        if isinstance(n, ast.Subscript) and isinstance(n.ctx, ast.Store):
+            stored.add(unparse(n.value))
+        elif isinstance(n, ast.Call) and isinstance(n.func, ast.Attribute):
+            if n.func.attr in ('add', 'setdefault', 'append'):
+                stored.add(unparse(n.func.value))
+            if n.func.attr in ('get', 'setdefault'):
+                tested.add(unparse(n.func.value))
+        elif isinstance(n, ast.Compare) and len(n.ops) == 1 and \
+                isinstance(n.ops[0], (ast.In, ast.NotIn)):
+            tested.add(unparse(n.comparators[0]))
+        elif isinstance(n, ast.Subscript) and isinstance(n.ctx, ast.Load):
+            tested.add(unparse(n.value))
+    return stored & tested
+
+
+def _is_memo_test(f, e, memo):
+    """The test looks at a memo table / registry of the function, directly
+    (`k in C`, `C.get(k) is None`) or through a local bound to a lookup."""
+    if not memo:
+        return False
+    d = defs(f.node)
+    for x in ast.walk(e):
+        if isinstance(x, (ast.Name, ast.Attribute)) and unparse(x) in memo:
+            return True
+    # a local bound to a lookup, tested as a whole: `v = C.get(k)` ... `if v is None`
+    bare = e
+    if isinstance(e, ast.Compare) and len(e.ops) == 1 and \
+            isinstance(e.ops[0], (ast.Is, ast.IsNot)) and \
+            isinstance(e.comparators[0], ast.Constant) and e.comparators[0].value is None:
+        bare = e.left
+    if isinstance(bare, ast.Name):
+        for v in d.all_values(bare.id):
+            if isinstance(v, ast.Call) and isinstance(v.func, ast.Attribute) and \
+                    v.func.attr in ('get', 'pop') and unparse(v.func.value) in memo:
+                return True
+            if isinstance(v, ast.Subscript) and unparse(v.value) in memo:
+                return True
+    return False
+
+
+def _enclosing_iters(f, n):
+    """Texts of the iterables of the loops and comprehensions around ``n``."""
+    out = []
+    child, par = n, getattr(n, '_parent', None)
+    while par is not None and par is not f.node:
+        if isinstance(par, (ast.For, ast.AsyncFor)) and child is not par.iter:
+            out.append(_clean(_subst_text(f, par.iter)))
+        elif isinstance(par, (ast.ListComp, ast.SetComp, ast.GeneratorExp, ast.DictComp)):
+            for g in par.generators:
+                if child is not g:
+                    out.append(_clean(_subst_text(f, g.iter)))
+        child, par = par, getattr(par, '_parent', None)
+    return out
+
+
+def _in_raise(n, stop):
+    par = getattr(n, '_parent', None)
+    while par is not None and par is not stop:
+        if isinstance(par, ast.Raise):
+            return True
+        if isinstance(par, ast.stmt):
+            return False
+        par = getattr(par, '_parent', None)
+    return False
+
+
+def call_conditions(pm, funcs):
+    """{qualname: {call text: [[atom, ...] per occurrence]}}.  Pseudo-atoms:
+    ``['handler', k]`` for code of an except handler."""
+    out = {}
+    for f in funcs:
+        pi = path_info(f.node)
+        memo = _memo_containers(f)
+        table = {}
+        for n in own_nodes(f.node):
+            if not isinstance(n, ast.Call) or not _tracked_call(pm, f, n):
+                continue
+            if _in_raise(n, f.node):
+                continue        # building the exception object: decided with the raise site
+            iters = set(_enclosing_iters(f, n))
+            atoms = []
+            for e, pol in pi.at(n):
+                if _from_refusing_exit(e, pol, n):
+                    continue
+                if _is_memo_test(f, e, memo):
+                    continue    # registry / memo test: decided by the memo-key rule
+                a = _truthy(canonical_atom(f, e, pol))
+                if a[0] == 'tv' and _clean(a[1]) in iters:
+                    continue    # emptiness of the collection the call iterates over
+                atoms.append(json.dumps(a))
+            for t, part, k in pi.trys_at(n):
+                if part == 'handler':
+                    atoms.append(json.dumps(['handler', '%s@%d' % (
+                        unparse(t.handlers[k].type) if t.handlers[k].type else '*',
+                        0)]))
+            key = _clean('%s(%s)' % (
+                _subst_text(f, n.func),
+                ', '.join([_subst_text(f, a) for a in n.args] +
+                          ['%s=%s' % (k.arg, _subst_text(f, k.value)) for k in n.keywords])))
+            table.setdefault(key, []).append(sorted(set(atoms)))
+        if table:
+            out[f.qualname] = table
+    return out
+
+
+TV = {'truthy': {'t'}, 'falsy': {'n', 'f'}, 'notnone': {'f', 't'}, 'none': {'n'}}
+
+
+def _literal(atom):
+    """(variable, domain, set of values of the variable that make the atom true)."""
+    a = json.loads(atom)
+    if a[0] == 'cmp':
+        return ('cmp', a[1], a[2]), '<=>', set(a[3])
+    if a[0] == 'tv':
+        return ('tv', a[1]), 'nft', set(TV[a[2]])
+    if a[0] == 'rel':
+        return ('rel', a[1], a[2], a[3]), 'TF', {'T' if a[4] else 'F'}
+    if a[0] == 'handler':
+        return ('handler', a[1]), 'TF', {'T'}
+    return ('atom', a[1]), 'TF', {'T' if a[2] else 'F'}
+
+
+def _formula(instances):
+    return [[_literal(a) for a in inst] for inst in instances]
+
+
+def _holds(formula, env):
+    return any(all(env[v] in ok for v, _, ok in conj) for conj in formula)
+
+
+def compare_calls(ref_inst, cur_inst, limit=4096):
+    """('ok' | 'skipped' | 'extra' | 'incomparable', witness)."""
+    import itertools
+    if sorted(map(tuple, ref_inst)) == sorted(map(tuple, cur_inst)):
+        return 'ok', ''
+    R, C = _formula(ref_inst), _formula(cur_inst)
+    rv = {v: d for conj in R for v, d, _ in conj}
+    cv = {v: d for conj in C for v, d, _ in conj}
+    if not (set(rv) <= set(cv) or set(cv) <= set(rv)):
+        return 'incomparable', ''
+    allv = dict(rv)
+    allv.update(cv)
+    names = sorted(allv, key=repr)
+    size = 1
+    for v in names:
+        size *= len(allv[v])
+    if size > limit:
+        return 'incomparable', ''
+    skipped = extra = None
+    for combo in itertools.product(*[allv[v] for v in names]):
+        env = dict(zip(names, combo))
+        r, c = _holds(R, env), _holds(C, env)
+        if r and not c and skipped is None:
+            skipped = env
+        if c and not r and extra is None:
+            extra = env
+    def show(env):
+        return ', '.join('%s=%s' % (' '.join(map(str, v[1:]))[:60], env[v]) for v in names
+                         if v in set(cv) ^ set(rv) or True)[:300]
+    if skipped is not None:
+        return 'skipped', show(skipped)
+    # a call made on more paths than before (`extra`) is not claimed: one more use of a
+    # helper that only computes a value changes nothing, and purity is not decided here
+    return 'ok', ''
+
+
+def run_calls(pm, ctx, rule, patterns, title=None, min_funcs=1):
+    """Call-condition drift for the functions matching ``patterns``."""
+    import re
+    from .model import AnalysisError
+    ctx.rule(rule, title or
+             'every call of a repository function (or imported library function) in the functions '
+             'the property is anchored in runs under the condition confirmed on the reference '
+             'tree: by a truth table over the path atoms, no assignment lets the function '
+             'complete without a call it used to make (tests on '
+             'memo tables / registries and emptiness of the iterated collection are left to '
+             'their own rules; re-spelled conditions and new or removed calls are not claimed)')
+    verif = os.path.dirname(os.path.dirname(os.path.abspath(__file__)))
+    ref = load_reference(verif, 'calls')
+    if ref is None:
+        raise AnalysisError('anchor=reference/conditions.json (calls missing)')
+    pats = [re.compile(p) for p in patterns]
+    funcs = [f for q, f in sorted(pm.functions.items()) if any(p.search(q) for p in pats)]
+    all_nested = []
+
+    def add(f):
+        all_nested.append(f)
+        for g in f.nested.values():
+            add(g)
+    for f in funcs:
+        add(f)
+    cur = call_conditions(pm, all_nested)
+    n_funcs = n_calls = 0
+    for f in all_nested:
+        q = f.qualname
+        if q not in ref:
+            continue
+        n_funcs += 1
+        problems = []
+        for key, rinst in sorted(ref[q].items()):
+            cinst = cur.get(q, {}).get(key)
+            if cinst is None:
+                continue
+            n_calls += 1
+            verdict, wit = compare_calls(rinst, cinst)
+            if verdict in ('skipped', 'extra'):
+                problems.append((verdict, key, wit))
+        ctx.check(rule, not problems, '%s: calls under their confirmed conditions' % f.short,
+                  f.loc,
+                  msg='%s: the call %s is now %s when [%s]' % (
+                      f.short, problems[0][1][:80] if problems else '',
+                      {'skipped': 'skipped on a path that used to make it',
+                       'extra': 'made on a path that used not to make it'}.get(
+                           problems[0][0] if problems else '', ''),
+                      problems[0][2] if problems else ''),
+                  key='%s|%s|calls' % (rule, q))
+    ctx.extra['%s_functions' % rule] = n_funcs
+    ctx.extra['%s_calls' % rule] = n_calls
+    ctx.floor(rule, n_funcs, min_funcs, 'functions compared with the reference')
